@@ -4,6 +4,7 @@ package extendeddaemonsetreplicaset
 
 import (
 	corev1 "k8s.io/api/core/v1"
+	metav1 "k8s.io/apimachinery/pkg/apis/meta/v1"
 	"k8s.io/apimachinery/pkg/util/intstr"
 
 	datadoghqv1alpha1 "github.com/DataDog/extendeddaemonset/api/v1alpha1"
@@ -35,11 +36,22 @@ func ZZ_C17_errorAccounting() {
 	if nondet.Bool("cleanupCondExists") {
 		c.ERS[0].Status.Conditions = append(c.ERS[0].Status.Conditions, datadoghqv1alpha1.ExtendedDaemonSetReplicaSetCondition{Type: datadoghqv1alpha1.ConditionTypePodsCleanupDone, Status: corev1.ConditionTrue})
 	}
+	// a creation can also fail before it reaches the API: the pod template already names another
+	// controller as owner, so the generated pod cannot be given its owner reference (the pod is still
+	// submitted); that error counts like any other
+	alreadyOwned := nondet.Bool("templateAlreadyOwnedByAnotherController")
+	if alreadyOwned {
+		ctrl := true
+		c.ERS[0].Spec.Template.OwnerReferences = []metav1.OwnerReference{{APIVersion: "batch/v1", Kind: "Job", Name: "someone-else", UID: "uid-job", Controller: &ctrl}}
+	}
 	c.InjectFaults = true
 	_, err := zzReconcile(zzReconciler(c, false), zzNS, rsNew.Name)
 
 	failedCreate, failedDelete, failedCleanup, failedStatus := 0, 0, 0, false
 	for _, e := range c.Log {
+		if alreadyOwned && e.Kind == "Pod" && e.Verb == "create" && !e.Failed {
+			failedCreate++ // generation error of a pod whose Create call succeeded
+		}
 		if !e.Failed {
 			continue
 		}
@@ -88,6 +100,7 @@ func ZZ_C17_errorAccounting() {
 	}
 	nondet.Observe("recorded", recErr || cleanupFalse)
 	nondet.Reach("C17.create-failed", failedCreate > 0 && !failedStatus)
+	nondet.Reach("C17.generation-error-only", alreadyOwned && failedCreate > 0 && failedDelete == 0 && failedCleanup == 0 && !failedStatus)
 	nondet.Reach("C17.update-delete-failed", failedDelete > 0 && !failedStatus)
 	nondet.Reach("C17.cleanup-failed", failedCleanup > 0 && !failedStatus)
 	nondet.Reach("C17.all-ok", failedCreate+failedDelete+failedCleanup == 0 && !failedStatus)
